@@ -326,6 +326,7 @@ impl App {
                 stream: Box::pin(stream),
                 buf: Vec::new(),
                 raw_bytes: 0,
+                ended: false,
             }),
         )
     }
@@ -339,6 +340,8 @@ pub struct SseReader {
     stream: ByteStream,
     buf: Vec<u8>,
     pub raw_bytes: u64,
+    /// the server ended the response body (not a read timeout)
+    pub ended: bool,
 }
 
 impl SseReader {
@@ -367,7 +370,10 @@ impl SseReader {
                     self.raw_bytes += chunk.len() as u64;
                     self.buf.extend_from_slice(&chunk);
                 }
-                Ok(Some(Err(_))) | Ok(None) => return None,
+                Ok(Some(Err(_))) | Ok(None) => {
+                    self.ended = true;
+                    return None;
+                }
                 Err(_) => return None,
             }
         }
